@@ -5,6 +5,9 @@
    keys of Model/Ops.v (C10). *)
 From Coq Require Import ZArith QArith List.
 From PV Require Import Lib.Py Model.Ops Model.LookupCore Proofs.C16.
+From PV Require Import Proofs.C10Order Proofs.C16Order Proofs.C16Sorted Proofs.C16Desc
+  Proofs.C16Lookup Proofs.C16Wild Proofs.C16Wrap.
+From PV Require Model.Lookup.
 From PV Require Gen.excelutil Gen.lookup.
 Import ListNotations.
 Open Scope Z_scope.
@@ -84,22 +87,21 @@ Theorem C16_match_position : forall v arr mt a m,
 Proof. exact match_range. Qed.
 Print Assumptions C16_match_position.
 
-(* PARTIAL (C16_match1): a position returned by MATCH(v, a, 1) holds a
-   non-blank cell of v's type; together with C16_bisect (everything before the
-   partition point is <= v, everything after is > v).  Missing: the combination
-   "on sorted data the cell is the largest value <= v of v's type / #N/A iff
-   there is none" (needs the back-off loop related to the sortedness of the
-   types); judged by the oracle on every sorted vector of the run. *)
+(* C16_match1_partial (kept; holds for UNSORTED vectors too): a position
+   returned by MATCH(v, a, 1) holds a non-blank cell of v's type; together with
+   C16_bisect (everything before the partition point is <= v, everything after
+   is > v).  The full clause "on sorted data the cell is the largest value <= v
+   of v's type / #N/A iff there is none" is C16_match1_sorted below. *)
 Theorem C16_match1_partial : forall x a i, match1 x a = Ok (VInt i) ->
   exists c k, 1 <= i <= zlen a /\ nth_error a (Z.to_nat (i - 1)) = Some c /\ c <> VNone
               /\ abs_key c = Ok k /\ fst k = fst (fst x).
 Proof. exact match1_hit. Qed.
 Print Assumptions C16_match1_partial.
 
-(* PARTIAL (C16_match_m1): a position returned by MATCH(v, a, -1) holds a cell
-   that is not an error code, has v's type and is >= v (not < v).  Missing:
-   minimality on descending data (the scan stops at the first smaller cell);
-   judged by the oracle on every descending vector of the run. *)
+(* C16_match_m1_partial (kept; holds for UNSORTED vectors too): a position
+   returned by MATCH(v, a, -1) holds a cell that is not an error code, has v's
+   type and is >= v (not < v).  Minimality on descending data is
+   C16_match_m1_sorted below. *)
 Theorem C16_match_m1_partial : forall xk l i last m, scan_m1 xk l i last = Ok m ->
   m = last \/ exists n c k, m = VInt (i + Z.of_nat n) /\ nth_error l n = Some c
                             /\ in_error_codes c = Ok false /\ abs_key c = Ok k
@@ -173,3 +175,168 @@ Theorem C16_index_beyond : forall w rows i k, rect w rows -> rows <> [] -> 1 <= 
   1 <= i -> 1 <= k -> (zlen rows < i \/ w < k) -> index_ (VTuple rows) (VInt i) (VInt k) = Ok REF.
 Proof. exact index_beyond. Qed.
 Print Assumptions C16_index_beyond.
+
+(* ------------------------------------------------------------------------
+   MATCH on sorted data, LOOKUP, wildcards (Proofs/C16Order.v, C16Sorted.v,
+   C16Desc.v, C16Lookup.v, C16Wild.v).  kle a b := key_lt false a b = Ok true
+   (the model's <= on ExcelCmp keys: numbers < text < logicals < error codes,
+   within a type by value, text lower-cased), klt the strict one. *)
+
+(* the order used is a preorder on the keys of all scalars, and < is the
+   negation of the converse <= *)
+Theorem C16_key_order_le_transitive : forall a b c, kwf a -> kwf b -> kwf c ->
+  kle a b -> kle b c -> kle a c.
+Proof. exact kle_trans_wf. Qed.
+Print Assumptions C16_key_order_le_transitive.
+Theorem C16_key_order_lt_is_not_ge : forall x k, kwf x -> kwf k ->
+  exists b, key_lt true x k = Ok b /\ key_lt false k x = Ok (negb b).
+Proof. exact klt_kle_neg. Qed.
+Print Assumptions C16_key_order_lt_is_not_ge.
+
+(* C16_match1_sorted (FULL).  excel_ascending a: a = blanks ++ mid ++ blanks
+   (either run of blanks possibly empty; NO blank inside mid), every cell of mid
+   has a key, adjacent keys of mid are <= (duplicates allowed).  holds_le x c k:
+   c is a non-blank cell with key k, of the lookup value's type, k <= x.
+   Then MATCH(v, a, 1) is either a position i whose cell is such a cell and is
+   the largest one — every such cell is <= it and sits at or before i: of a
+   repeated maximum the LAST position is returned — or #N/A and there is no
+   such cell.  Every length, every scalar lookup value (a blank lookup value is
+   the number 0; blank CELLS are never matched by type 1). *)
+Theorem C16_match1_sorted : forall v x a, lv_key v = Ok x -> excel_ascending a ->
+  (exists i c k, match_ v (VTuple a) (VInt 1) = Ok (VInt i) /\ 1 <= i <= zlen a
+      /\ nth_error a (Z.to_nat (i - 1)) = Some c /\ holds_le x c k
+      /\ forall j c' k', nth_error a j = Some c' -> holds_le x c' k' ->
+                         kle k' k /\ Z.of_nat j <= i - 1)
+  \/ (match_ v (VTuple a) (VInt 1) = Ok NA
+      /\ forall j c' k', nth_error a j = Some c' -> ~ holds_le x c' k').
+Proof. exact match1_sorted. Qed.
+Print Assumptions C16_match1_sorted.
+Theorem C16_match1_sorted_na_iff : forall v x a, lv_key v = Ok x -> excel_ascending a ->
+  (match_ v (VTuple a) (VInt 1) = Ok NA
+   <-> forall j c' k', nth_error a j = Some c' -> ~ holds_le x c' k').
+Proof. exact match1_sorted_na. Qed.
+Print Assumptions C16_match1_sorted_na_iff.
+
+(* C16_match_m1_sorted (FULL, outside the known finding
+   C16-blank-cell-counts-as-zero).  excel_descending a: blanks ++ mid ++ blanks
+   with adjacent keys of mid >=.  The scan reads a blank cell as the number 0,
+   so blank cells are excluded when the lookup value is a number (third
+   hypothesis) and only then.  cand t c k: c is not an error code, has key k of
+   type t.  m1_answer xk a n c k: position n holds the candidate c with
+   xk <= k, k <= every candidate >= xk (the smallest), and of several equal
+   cells: the FIRST cell equal to x if x occurs, otherwise the LAST cell holding
+   the smallest value above x.  m1_none: no candidate is >= xk. *)
+Theorem C16_match_m1_sorted : forall v x a, lv_key v = Ok x -> excel_descending a ->
+  (fst (fst x) = 0 -> ~ In VNone a) ->
+  (exists i c k, match_ v (VTuple a) (VInt (-1)) = Ok (VInt i) /\ 1 <= i <= zlen a /\ c <> VNone
+                 /\ m1_answer (fst x) a (Z.to_nat (i - 1)) c k)
+  \/ (match_ v (VTuple a) (VInt (-1)) = Ok NA /\ m1_none (fst x) a).
+Proof. exact match_m1_sorted. Qed.
+Print Assumptions C16_match_m1_sorted.
+(* … what the scan needs is less: only the cells it compares (non-error cells
+   of v's type, a blank counting as the number 0) must descend; anything else
+   may sit anywhere in the vector *)
+Theorem C16_match_m1_scan : forall v x a, lv_key v = Ok x ->
+  (forall c, In c a -> exists k, abs_key c = Ok k) -> desc_for (fst (fst x)) a ->
+  (exists i c k, match_ v (VTuple a) (VInt (-1)) = Ok (VInt i) /\ 1 <= i <= zlen a
+                 /\ m1_answer (fst x) a (Z.to_nat (i - 1)) c k)
+  \/ (match_ v (VTuple a) (VInt (-1)) = Ok NA /\ m1_none (fst x) a).
+Proof. exact match_m1_scan. Qed.
+Print Assumptions C16_match_m1_scan.
+
+(* LOOKUP, array form: search_vec w rows = the first column when w <= height,
+   else the first row; the answer is INDEX in the last column (last row) at the
+   position MATCH(v, search vector, 1) finds, or MATCH's error.  Every
+   rectangular table (square ones search the column). *)
+Theorem C16_lookup_array : forall v w rows, rect w rows -> rows <> [] -> 1 <= w ->
+  lookup.f_lookup v (VTuple rows) VNone
+  = (m <- match_ v (search_vec w rows) (VInt 1) ;;
+     if is_int m then
+       (if w <=? zlen rows then index_ (VTuple rows) m (VInt w)
+        else index_ (VTuple rows) (VInt (zlen rows)) m)
+     else Ok m).
+Proof. exact lookup_array. Qed.
+Print Assumptions C16_lookup_array.
+(* LOOKUP, vector form: LOOKUP(v, T, rr) = INDEX(rr, MATCH(v, search vector, 1))
+   for a result vector rr that is a column of >= 2 cells or a row, at least as
+   long as the search vector (shorter: known finding
+   C16-lookup-short-result-range, IndexError instead of #REF!; witness in
+   Refuted/C16_lookup_short.v) *)
+Theorem C16_lookup_vector_col : forall v w rows rr, rect w rows -> rows <> [] -> 1 <= w ->
+  rect 1 rr -> 2 <= zlen rr -> search_len w rows <= zlen rr ->
+  lookup.f_lookup v (VTuple rows) (VTuple rr)
+  = (m <- match_ v (search_vec w rows) (VInt 1) ;;
+     if is_int m then index_ (VTuple rr) m VNone else Ok m).
+Proof. exact lookup_vector_col. Qed.
+Print Assumptions C16_lookup_vector_col.
+Theorem C16_lookup_vector_row : forall v w rows cells, rect w rows -> rows <> [] -> 1 <= w ->
+  1 <= zlen cells -> search_len w rows <= zlen cells ->
+  lookup.f_lookup v (VTuple rows) (VTuple [VTuple cells])
+  = (m <- match_ v (search_vec w rows) (VInt 1) ;;
+     if is_int m then index_ (VTuple [VTuple cells]) m VNone else Ok m).
+Proof. exact lookup_vector_row. Qed.
+Print Assumptions C16_lookup_vector_row.
+
+(* MATCH(v, range, mt) itself (the regenerated f_match): a single row is
+   searched as it is, any other range through its first column — the theorems
+   on match_ above are theorems on MATCH *)
+Theorem C16_match_range_row : forall v cells mt,
+  lookup.f_match v (VTuple [VTuple cells]) mt = match_ v (VTuple cells) mt.
+Proof. exact match_shape_row. Qed.
+Print Assumptions C16_match_range_row.
+Theorem C16_match_range_column : forall v w rows mt, rect w rows -> 1 <= w -> zlen rows <> 1 ->
+  lookup.f_match v (VTuple rows) mt = match_ v (VTuple (col_of 0 rows)) mt.
+Proof. exact match_shape_col. Qed.
+Print Assumptions C16_match_range_column.
+
+(* C16_match0_wildcard.  The matcher of the model (the regular expression that
+   build_wildcard_re compiles) is the declarative ?/* relation Glob of C15 on
+   text without a line feed … *)
+Theorem C16_glob_declarative : forall p s, no_lf s = true -> (glob p s = true <-> C15.Glob p s).
+Proof. exact glob_declarative. Qed.
+Print Assumptions C16_glob_declarative.
+(* … and MATCH(pattern, a, 0), pattern with a wildcard and no other regex
+   metacharacter (those: known finding C16-wildcard-regex-metachar), no line
+   feed in the text cells (C16-wildcard-newline), returns the first position
+   whose cell is TEXT — not an error code, not a number/logical/blank — and
+   matches the lower-cased pattern (wild_hit), else #N/A.  '~' is an ordinary
+   character here (Excel's escapes: known finding C16-wildcard-tilde-escape). *)
+Theorem C16_match0_wildcard : forall v x p a, lv_key v = Ok x -> fst x = (1, VStr p) ->
+  existsb is_wild p = true -> existsb regex_meta p = false ->
+  (forall c, In c a -> exists k, abs_key c = Ok k) -> no_lf_cells a ->
+  (match_ v (VTuple a) (VInt 0) = Ok NA /\ forall c, In c a -> ~ wild_hit p c)
+  \/ (exists n c, match_ v (VTuple a) (VInt 0) = Ok (VInt (1 + Z.of_nat n))
+                  /\ nth_error a n = Some c /\ wild_hit p c
+                  /\ forall n' c', (n' < n)%nat -> nth_error a n' = Some c' -> ~ wild_hit p c').
+Proof. exact match0_wildcard. Qed.
+Print Assumptions C16_match0_wildcard.
+
+(* The functions as pycel calls them (Model/Lookup.v: the apply_meta wrappers
+   around the regenerated bodies).  plain_lv v: v is a scalar and not an error
+   code; error_lv v: v is an error code.  With an integer index / match type
+   (and a logical range_lookup) the wrappers hand a plain lookup value through
+   unchanged — whatever the table holds — and return an error-code lookup value
+   itself.  Other argument shapes (array lookup value, text/float/logical
+   index, …) stay correspondence-only. *)
+Theorem C16_wrapped_match : forall v arr mt, plain_lv v ->
+  Lookup.X_match [v; arr; VInt mt] = lookup.f_match v arr (VInt mt).
+Proof. exact X_match_plain. Qed.
+Print Assumptions C16_wrapped_match.
+Theorem C16_wrapped_vlookup : forall v t k r, plain_lv v ->
+  Lookup.X_vlookup [v; t; VInt k; VBool r] = lookup.f_vlookup v t (VInt k) (VBool r).
+Proof. exact X_vlookup_plain. Qed.
+Print Assumptions C16_wrapped_vlookup.
+Theorem C16_wrapped_hlookup : forall v t k r, plain_lv v ->
+  Lookup.X_hlookup [v; t; VInt k; VBool r] = lookup.f_hlookup v t (VInt k) (VBool r).
+Proof. exact X_hlookup_plain. Qed.
+Print Assumptions C16_wrapped_hlookup.
+Theorem C16_wrapped_lookup : forall v arr rr, plain_lv v ->
+  Lookup.X_lookup [v; arr; rr] = lookup.f_lookup v arr rr
+  /\ Lookup.X_lookup [v; arr] = lookup.f_lookup v arr VNone.
+Proof. exact X_lookup_plain. Qed.
+Print Assumptions C16_wrapped_lookup.
+Theorem C16_error_lookup_value : forall v arr mt t k r rr, error_lv v ->
+  Lookup.X_match [v; arr; VInt mt] = Ok v /\ Lookup.X_vlookup [v; t; VInt k; VBool r] = Ok v
+  /\ Lookup.X_lookup [v; arr; rr] = Ok v.
+Proof. exact X_error_lookup_value. Qed.
+Print Assumptions C16_error_lookup_value.
